@@ -99,6 +99,11 @@ package ast_java
 //@ ensures result1 == "same package" ==> InList(clzs, result0) && HasSuffix(result0, "." + PureType(targetType))
 //@ ensures result1 == "" ==> result0 == ""
 
+// C01: the superclass of a class is never lost: a name that does not resolve to an import or a class of the package is
+// kept as written
+//@ func buildExtend
+//@ ensures extendName != "" ==> result != ""
+
 // ---- C02: what a method invocation records
 
 // the position selects the callee identifier: it starts at the first token of the call and is as long as the callee name
